@@ -1,11 +1,113 @@
+import OdmlModel.Model.Batch
 import Driver.Util
 import Driver.Loop
 open Lean Drv
 
 namespace DrvC17
+open FS Batch
 
-/-- Stub: replaced when the model of C17 is built. -/
-def handle (_j : Json) : Except String Json := throw "model of C17 not built"
+def strs (j : Json) (k : String) : Except String (List (List Char)) := do
+  pure (((← getArr j k).toList.filterMap (fun x => x.getStr?.toOption)).map String.toList)
+
+/-- `{"content": value}` tables. -/
+def table (j : Json) (k : String) : Except String (List (List Char × Json)) := do
+  match ← getVal j k with
+  | .obj kvs => pure (kvs.toList.map (fun (a, b) => (a.toList, b)))
+  | _ => throw s!"bad table {k}"
+
+/-- Tables are keyed by the bytes found at the path (what the per-file functions read). -/
+def lookup (t : List (List Char × Json)) (c : Option Bytes) : Option Json :=
+  match c with
+  | none => none
+  | some b => (t.find? (fun e => e.1 == b)).map (·.2)
+
+def decFs (j : Json) : Except String (List (Path × Bytes)) := do
+  let xs ← j.getArr?
+  xs.toList.mapM fun x => do
+    match x with
+    | .arr #[a, b] => pure ((← a.getStr?).toList, (← b.getStr?).toList)
+    | _ => throw "bad fs entry"
+
+/-- Tool tables: loads: name -> bool; convert: name -> "err" | null | text; render: name -> "err" | text.
+    A name missing from a table fails. -/
+def mkTool (loads conv rend : List (List Char × Json)) : Tool :=
+  { loads := fun _ c => match lookup loads c with | some (.bool b) => b | _ => false,
+    convert := fun _ c => match lookup conv c with
+      | some .null => .ok none
+      | some (.str s) => if s == "err" then .error (.other "conv") else .ok (some s.toList)
+      | _ => .error (.other "conv"),
+    render := fun _ c => match lookup rend c with
+      | some (.str s) => if s == "err" then .error (.other "render") else .ok s.toList
+      | _ => .error (.other "render") }
+
+def repName : Report → String
+  | .skipped => "skipped" | .converted => "converted" | .nothing => "nothing"
+  | .convError => "convError" | .exported => "exported"
+  | .convertedExported => "convertedExported" | .rdfError => "rdfError" | .done => "done"
+
+def filesOut (fs : Fs) (query : List Path) : Json :=
+  jarr (query.map fun q => jarr [jchars q, match fs q with | some b => jchars b | none => Json.null])
+
+def decFmt (j : Json) : Except String ResFormat := do
+  match ← getVal j "fmt" with
+  | .str "v1_1" => pure .v1_1
+  | .str "odml" => pure .odml
+  | .obj _ => do
+    let ext ← getStr (← getVal j "fmt") "rdf"
+    pure (.rdf ext.toList)
+  | _ => throw "bad fmt"
+
+def handle (j : Json) : Except String Json := do
+  let op ← getStr j "op"
+  match op with
+  | "stem" => pure (jchars (stem (← getStr j "path").toList))
+  | "splitext" =>
+    let r := splitextPath (← getStr j "path").toList
+    pure (jarr [jchars r.1, jchars r.2])
+  | "basename" => pure (jchars (basename (← getStr j "path").toList))
+  | "join" => pure (jchars (pyJoin (← getStr j "a").toList (← getStr j "b").toList))
+  | "outname" => pure (jchars (outName (← decFmt j) (← getStr j "path").toList))
+  | "dirname" => pure (jchars (dirname (← getStr j "path").toList))
+  | "implicit_out" =>
+    pure (jchars (implicitOutDir (← getStr j "in").toList (← getStr j "fmt").toList))
+  | "mapdir" =>
+    pure (jchars (mapDir (← getStr j "in").toList (← getStr j "out").toList (← getStr j "dir").toList))
+  | "cli" =>
+    let tool ← getStr j "tool"
+    let outDir := (← getStr j "out_dir").toList
+    let files ← strs j "files"
+    let fs := Fs.ofList (← decFs (← getVal j "fs"))
+    let T := mkTool (← table j "loads") (← table j "convert") (← table j "render")
+    let (step, outs) ← (match tool with
+      | "convert" => pure (convStep T outDir, convOuts outDir)
+      | "rdf" => do
+        let rdfDir := (← getStr j "rdf_dir").toList
+        pure (rdfStep T outDir rdfDir, rdfOuts outDir rdfDir)
+      | _ => throw "unknown tool" : Except String (Step × (Path → List Path)))
+    let res := loop step files fs
+    let query := files ++ files.flatMap outs
+    let oc := match res.2 with
+      | .ok rs => jobj [("ok", jarr (rs.map (fun r => jstr (repName r))))]
+      | .error _ => jobj [("raised", jbool true)]
+    pure (jobj [("outcome", oc), ("files", filesOut res.1 query)])
+  | "convert_dir" =>
+    let fmt ← decFmt j
+    let inDir := (← getStr j "in").toList
+    let outDir := (← getStr j "out").toList
+    let legacy := (getBool j "legacy_unmatched").toOption.getD false
+    let entries ← (do
+      let xs ← getArr j "entries"
+      xs.toList.mapM fun x => do
+        match x with
+        | .arr #[a, b] => pure ((← a.getStr?).toList, (← b.getStr?).toList)
+        | _ => throw "bad entry" : Except String (List (Path × List Char)))
+    let fs := Fs.ofList (← decFs (← getVal j "fs"))
+    let T := mkTool [] (← table j "convert") (← table j "render")
+    let mapd : Path → Path := if legacy then id else mapDir inDir outDir
+    let res := convertDirLoop T fmt mapd entries fs
+    let query := entries.flatMap fun e => [pyJoin e.1 e.2, outName fmt (pyJoin (mapd e.1) e.2)]
+    pure (jobj [("ok", jbool res.2.isOk), ("files", filesOut res.1 query)])
+  | _ => throw s!"unknown op {op}"
 
 end DrvC17
 
